@@ -3,6 +3,9 @@ Session-level properties (C03..C20): generators, exhaustive small scopes and the
 The monitors themselves live in vf/monitors.py.
 """
 import itertools
+import json
+import os
+import sys
 
 from hypothesis import given, seed as hseed, settings, HealthCheck, Phase, strategies as st
 
@@ -1788,9 +1791,61 @@ class C16(SessionProp):
                     ml = (3 if (p == 3 and si == 1) else 1 if si >= 3 else 2) if tier == "quick" else 4
                     specs.append(("bytes", p, si, lo, lo + 32, ml))
                 specs.append(("mut", p, si, 4 if (p + si) % 2 else 3))
+        if tier != "quick":
+            specs += [("fuzz", i, seed, 150000) for i in range(16)]
         return specs
 
+    def run_fuzz(self, spec, res):
+        """coverage-guided campaign (atheris/libFuzzer) in a subprocess; half of the shards start from an empty
+        corpus, half from a corpus of valid broker packets"""
+        import shutil
+        import subprocess
+        import tempfile
+        from .core import VERIF
+        _, i, seed, runs = spec
+        base = os.path.join(VERIF, ".fuzz")
+        os.makedirs(base, exist_ok=True)
+        d = tempfile.mkdtemp(prefix="c16-", dir=base)
+        try:
+            corpus = os.path.join(d, "corpus")
+            os.makedirs(corpus)
+            if i % 2:
+                n = 0
+                for p in (1, 2, 3):
+                    for si in range(len(C16_STATES)):
+                        for pkt in c16_pool(p, 4, si)[:8]:
+                            with open(os.path.join(corpus, "s%d" % n), "wb") as f:
+                                f.write(bytes([(p - 1) + 3 * si, len(pkt) & 0xFF]) + pkt[:255])
+                            n += 1
+            env = dict(os.environ, PYTHONHASHSEED="0", PYTHONPATH=VERIF + os.pathsep + os.environ.get("PYTHONPATH", ""))
+            r = subprocess.run([sys.executable, "-m", "vf.fuzz16", os.path.join(d, "out"), "-runs=%d" % runs, "-seed=%d" % (seed * 100 + i + 1),
+                                "-max_len=96", "-timeout=30", corpus], cwd=VERIF, env=env, capture_output=True, text=True, timeout=3000)
+            st_path = os.path.join(d, "out", "stats.json")
+            if not os.path.exists(st_path):
+                if "No module named" in (r.stderr or "") and "atheris" in (r.stderr or ""):
+                    res.labels["fuzz:atheris_unavailable"] += 1
+                    return res
+                res.errors.append("fuzz shard %d produced no statistics: %s" % (i, (r.stderr or "")[-400:]))
+                return res
+            stt = json.load(open(st_path))
+            res.evals += stt["execs"]
+            res.tiers["coverage_guided"] += stt["execs"]
+            res.nontriv |= set(stt["nontrivial"])
+            for k, v in stt.get("labels", {}).items():
+                res.labels[k] += v
+            out = os.path.join(d, "out")
+            for nme in sorted(os.listdir(out)):
+                if nme.startswith("fuzz-") and nme.endswith(".json"):
+                    j = json.load(open(os.path.join(out, nme)))
+                    case = self.case_from_json(j["case"])
+                    res.viols.append((j["rule"], j["witness"], case))
+        finally:
+            shutil.rmtree(d, ignore_errors=True)
+        return res
+
     def run_exhaustive(self, spec, res):
+        if spec[0] == "fuzz":
+            return self.run_fuzz(spec, res)
         if spec[0] == "bytes":
             _, p, si, lo, hi, maxlen = spec
             cfg = dict(profile=p, version=4, jitter=0.25, rude=True)
